@@ -310,8 +310,8 @@ def run(tier):
                         if ep != "load" or big_chains[kind] > (1 if quick else 5):
                             n = 10000
                     add(ep, r["bytes"], r["dict"],
-                        dict(base, rep=("chain." + kind) if n >= 100 else "", neutral=False, chain_last=r["muts"][-1]["k"] == "MakeChain"),
-                        reps=r.get("reps") or None, chain=[ch[0], ch[1], n, ch[3], ch[4], kind])
+                        dict(base, rep=("chain." + kind) if n >= 100 else "", neutral=False, chain_last=r["muts"][-1] is cm[0]),
+                        reps=r.get("reps") or None, chain=[ch[0], ch[1], n, ch[3], bytes(cm[0]["v"]).decode("latin-1"), kind])
             elif r.get("reps"):
                 # the repetition written out in full; named after the unit repeated most often (>= 10^4 times)
                 big = [(m["idx"], bytes(m["v"])) for m in r["muts"] if m["k"] in ("RepeatToken", "PadTail") and m["a"] != "noop" and m["idx"] >= 10000]
